@@ -44,6 +44,139 @@ describe('C14',
 
 
 # =========================================================================== generic helpers
+from ..core import Func
+
+
+class _Rename(ast.NodeTransformer):
+    def __init__(self, mapping):
+        self.mapping = mapping
+
+    def visit_Name(self, node):
+        if node.id in self.mapping:
+            return ast.copy_location(ast.Name(id=self.mapping[node.id], ctx=node.ctx), node)
+        return node
+
+
+def _set_parents(root, parent):
+    root._parent = parent
+    for node in ast.walk(root):
+        for ch in ast.iter_child_nodes(node):
+            ch._parent = node
+
+
+def _inlinable(helper):
+    a = helper.node.args
+    if a.vararg or a.kwarg or a.kwonlyargs or a.posonlyargs or helper.node.decorator_list:
+        return False
+    for w in astx.walk(helper.node):
+        if isinstance(w, (ast.Return, ast.Yield, ast.YieldFrom, ast.Global, ast.Nonlocal)):
+            return False
+    return True
+
+
+# methods that rules analyse as anchors in their own right are never expanded into their callers
+_ANCHOR_METHODS = {'_exec', 'compute', 'compute_partials', '_compute_colored_partials', '_compute_coloring',
+                   '_setup_partials', '_setup_vectors', '_setup_expressions', '_linearize', '_get_coloring'}
+
+
+def inlined(repo, fn, depth=2):
+    """Func whose body has the private helper methods of the same module, called as statements
+    `self._helper(args)`, expanded in place (parameters bound to the arguments, clashing helper locals renamed).
+
+    A behaviour-preserving "extract method" therefore leaves the analysed shape unchanged.  Helpers that return a
+    value, take *args or live in another module are left alone.
+    """
+    if fn.cls is None or depth <= 0:
+        return fn
+    cls_name = fn.qualname.rsplit('.', 1)[0]
+    todo = []
+    for st in astx.walk_stmts(fn.node.body):
+        if isinstance(st, ast.Expr) and isinstance(st.value, ast.Call) and isinstance(st.value.func, ast.Attribute) \
+                and astx.path(st.value.func.value) == 'self' and st.value.func.attr != fn.node.name:
+            h = repo.module(fn.rel).funcs.get(f'{cls_name}.{st.value.func.attr}')
+            if h is not None and st.value.func.attr.startswith('_') and not st.value.func.attr.startswith('__') \
+                    and _inlinable(h) and st.value.func.attr not in _ANCHOR_METHODS:
+                todo.append((st, h))
+    if not todo:
+        return fn
+    new = astx._copy(fn.node)
+    # map original statements to their copies by position in a parallel walk
+    orig = list(astx.walk_stmts(fn.node.body))
+    cop = list(astx.walk_stmts(new.body))
+    pos = {id(o): c for o, c in zip(orig, cop)}
+    caller_names = {n.id for n in ast.walk(fn.node) if isinstance(n, ast.Name)}
+    k = 0
+    for st, h in todo:
+        k += 1
+        call = pos[id(st)].value
+        params = [a.arg for a in h.node.args.args][1:]
+        defaults = h.node.args.defaults
+        bound = {}
+        for i, a in enumerate(call.args):
+            if isinstance(a, ast.Starred) or i >= len(params):
+                bound = None
+                break
+            bound[params[i]] = a
+        if bound is None:
+            continue
+        for kw in call.keywords:
+            if kw.arg is None or kw.arg not in params:
+                bound = None
+                break
+            bound[kw.arg] = kw.value
+        if bound is None:
+            continue
+        nd = len(defaults)
+        for i, pn in enumerate(params):
+            if pn not in bound and i >= len(params) - nd:
+                bound[pn] = astx._copy(defaults[i - (len(params) - nd)])
+        if set(bound) != set(params):
+            continue
+        body = [astx._copy(x) for x in astx.strip_doc(h.node.body)]
+        assigned = set()
+        for x in body:
+            for w in ast.walk(x):
+                if isinstance(w, ast.Name) and isinstance(w.ctx, (ast.Store, ast.Del)):
+                    assigned.add(w.id)
+        mapping, pre = {}, []
+        for pn in params:
+            arg = bound[pn]
+            if isinstance(arg, ast.Name) and pn not in assigned:
+                mapping[pn] = arg.id                 # plain alias: substitute
+            else:
+                tgt = pn if pn not in caller_names else f'{pn}__h{k}'
+                mapping[pn] = tgt
+                bind = ast.Assign(targets=[ast.Name(id=tgt, ctx=ast.Store())], value=arg)
+                ast.copy_location(bind, pos[id(st)])
+                ast.fix_missing_locations(bind)
+                pre.append(bind)
+        for nm in assigned - set(params):
+            if nm in caller_names:
+                mapping[nm] = f'{nm}__h{k}'
+        ren = _Rename(mapping)
+        body = [ren.visit(x) for x in body]
+        # splice
+        tgt_stmt = pos[id(st)]
+        placed = False
+        for holder in ast.walk(new):
+            for fld in ('body', 'orelse', 'finalbody'):
+                lst = getattr(holder, fld, None)
+                if isinstance(lst, list) and any(x is tgt_stmt for x in lst):
+                    i = [j for j, x in enumerate(lst) if x is tgt_stmt][0]
+                    lst[i:i + 1] = pre + body
+                    placed = True
+                    break
+            if placed:
+                break
+    _set_parents(new, getattr(fn.node, '_parent', None))
+    res = Func(fn.module, fn.qualname, new, fn.cls)
+    return inlined(repo, res, depth - 1) if depth > 1 else res
+
+
+def F(repo, qn):
+    """The function `qn` of exec_comp.py with its private statement-helpers expanded."""
+    return inlined(repo, repo.func(EC, qn))
+
 class Unknown(Exception):
     def __init__(self, node, why=''):
         self.node, self.why = node, why
@@ -372,7 +505,7 @@ def climb(node, drv, at, acc=None, depth=0):
 def perturb(repo, out):
     """Each `T += step` is followed, in the same iteration, by self._exec() and exactly one `T -= step` on the same target."""
     for qn in DRIVERS:
-        fn = repo.func(EC, qn)
+        fn = F(repo, qn)
         d = Driver(fn)
         g, rd = d.g, d.rd
         for n, why in d.odd:
@@ -474,7 +607,7 @@ def perturb(repo, out):
 def extract(repo, out):
     """Inside a perturbation every read of the complex outputs is imag(out * k) with step * k == 1j, taken after _exec()."""
     for qn in DRIVERS:
-        fn = repo.func(EC, qn)
+        fn = F(repo, qn)
         d = Driver(fn)
         g, rd = d.g, d.rd
         steps = {scale(a.ast.value, rd, a) for a in d.adds}
@@ -597,11 +730,11 @@ def _check_column_index(idx):
     return '?', None
 
 
-@rule('C14.slot', floor=15)
+@rule('C14.slot', floor=14)
 def slot(repo, out):
     """Results are stored under (of, wrt) = (output read, input perturbed) and in the column of the perturbed element."""
     # ---------------------------------------------------------------- compute_partials
-    fn = repo.func(EC, 'ExecComp.compute_partials')
+    fn = F(repo, 'ExecComp.compute_partials')
     d = Driver(fn)
     g, rd = d.g, d.rd
     for a in d.adds:
@@ -642,7 +775,7 @@ def slot(repo, out):
                 out.unsure(fn, eloop, 'element loop does not iterate array_idx_iter(<perturbed view>.shape)')
                 continue
             counter = eloop.target.elts[0].id
-        stores = 0
+        stores = good = 0
         for n in sorted(reg, key=lambda n: n.id):
             if n.kind != 'stmt':
                 continue
@@ -658,10 +791,23 @@ def slot(repo, out):
                 continue
             # value comes from the view of the same output
             of = K.elts[0].id
-            onames = [w for w in astx.walk(E) if isinstance(w, ast.Name) and w.id in set(d.out_defs().values())]
+            outnames = set(d.out_defs().values())
+            onames = []          # (name node, cfg node at which it is read), looking through temporaries
+            todo = [(w, n, 0) for w in astx.walk(E) if isinstance(w, ast.Name)]
+            while todo:
+                w, at_w, dep = todo.pop()
+                if w.id in outnames:
+                    onames.append((w, at_w))
+                elif dep < 3:
+                    ds_ = rd.defs(at_w, w.id)
+                    if len(ds_) == 1:
+                        dn_ = next(iter(ds_))
+                        if dn_.kind == 'stmt' and isinstance(dn_.ast, ast.Assign) and len(dn_.ast.targets) == 1 and \
+                                isinstance(dn_.ast.targets[0], ast.Name):
+                            todo.extend((x, dn_, dep + 1) for x in astx.walk(dn_.ast.value) if isinstance(x, ast.Name))
             bad = False
-            for w in onames:
-                for dn in rd.defs(n, w.id):
+            for w, at_w in onames:
+                for dn in rd.defs(at_w, w.id):
                     v = dn.ast.value if isinstance(dn.ast, ast.Assign) else None
                     if isinstance(v, ast.Subscript) and not (isinstance(v.slice, ast.Name) and v.slice.id == of):
                         out.bad(fn, n.ast, f'the value stored under of=`{of}` is read from the view of '
@@ -714,14 +860,19 @@ def slot(repo, out):
                 if I is not None:
                     out.unsure(fn, n.ast, 'indexed store under a whole-array perturbation')
                     continue
-            out.ok(fn, n.ast, f'stored under (output read, input perturbed)' + (f', column {counter}' if elem else ''))
+            good += 1
         if not stores:
             out.bad(fn, a.ast, 'no sub-jacobian is written while this perturbation is in place', key='no-store')
+        elif good == stores:
+            # one instance per perturbation (not per store statement: merging the scalar / array stores into one
+            # conditional expression must not change the instance count)
+            out.ok(fn, a.ast, f'{stores} store(s) under (output read, input perturbed)' +
+                   (f', column {counter}' if elem else ''))
     # the names the `of` loop iterates
     _check_out_names(fn, d, out)
 
     # ---------------------------------------------------------------- _compute_colored_partials
-    fn = repo.func(EC, 'ExecComp._compute_colored_partials')
+    fn = F(repo, 'ExecComp._compute_colored_partials')
     d = Driver(fn)
     g, rd = d.g, d.rd
     _check_out_names(fn, d, out)
@@ -729,7 +880,7 @@ def slot(repo, out):
         _colored(fn, d, a, out)
 
     # ---------------------------------------------------------------- maps built by _compute_coloring
-    fn = repo.func(EC, 'ExecComp._compute_coloring')
+    fn = F(repo, 'ExecComp._compute_coloring')
     want = {'self._col_idx2name': 'self._inputs', 'self._in_slices': 'self._inputs',
             'self._out_slices': 'self._outputs'}
     g = cfgm.build(fn)
@@ -942,6 +1093,12 @@ def _colored(fn, d, a, out):
         out.bad(fn, st, f'key `{astx.src(Kv)}` is (wrt, of): never a declared partial, the colored jacobian '
                 'stays zero', key='key-order')
         return
+    if not is_name_of_col(wrt, Kat) and I is not None:
+        kind0, cn0 = _check_column_index(I)
+        if cn0 is not None and is_name_of_col(cn0.id, sn):
+            out.bad(fn, st, f'the input NAME of the column is used as the column index and `{astx.src(resolve(rd, Kat, Kv.elts[1])[0])}` '
+                    'as the wrt name: name and local column are interchanged', key='key-order')
+            return
     if not is_name_of_col(wrt, Kat) or ofl is None:
         out.unsure(fn, st, 'key is not (loop over outputs, self._col_idx2name[icol])')
         return
@@ -1221,7 +1378,7 @@ def _declared_kinds(dl, out=None):
 @rule('C14.declare', floor=5)
 def declare(repo, out):
     """_setup_partials declares (of=out, wrt=inp) for every output and every right-hand-side variable of every expression, before the framework resolves the declarations."""
-    fn = repo.func(EC, 'ExecComp._setup_partials')
+    fn = F(repo, 'ExecComp._setup_partials')
     dl = DeclLoop(fn)
     g, rd = dl.g, dl.rd
     eloop, oloop, iloop = dl.loops[2], dl.loops[1], dl.loops[0]
@@ -1369,7 +1526,7 @@ def _perturb_modes(repo):
     perturbed view / of the output view read are evaluated; membership tests and the is-scalar flag are free;
     any other test is followed on both sides and taints the result.
     """
-    fn = repo.func(EC, 'ExecComp.compute_partials')
+    fn = F(repo, 'ExecComp.compute_partials')
     d = Driver(fn)
     g, rd = d.g, d.rd
     views = [a for a in d.adds if d.view_kind(a.ast.target, a) == 'view']
@@ -1493,7 +1650,7 @@ def _perturb_modes(repo):
 @rule('C14.diag', floor=1)
 def diag(repo, out):
     """The kind of partial declared for (out, inp) (diagonal / dense) agrees with the perturbation mode compute_partials uses for inp, for every combination of has_diag_partials and sizes."""
-    fdecl = repo.func(EC, 'ExecComp._setup_partials')
+    fdecl = F(repo, 'ExecComp._setup_partials')
     dl = DeclLoop(fdecl)
     try:
         D = _declared_kinds(dl)
@@ -1504,7 +1661,7 @@ def diag(repo, out):
     try:
         fn, d, P, inloop = _perturb_modes(repo)
     except Unknown as u:
-        out.unsure(repo.func(EC, 'ExecComp.compute_partials'), astx.stmt_of(u.node),
+        out.unsure(F(repo, 'ExecComp.compute_partials'), astx.stmt_of(u.node),
                    f'unrecognised condition in compute_partials: {astx.src(u.node)}')
         return
     out.count('abstract_states', len(STATES))
@@ -1589,7 +1746,7 @@ def _copy_flag(call):
 def sync(repo, out):
     """The complex work arrays are filled in place from the current inputs before every evaluation, and compute() copies the result back into the output vector."""
     for qn in ('ExecComp.compute_partials', 'ExecComp._compute_colored_partials'):
-        fn = repo.func(EC, qn)
+        fn = F(repo, qn)
         d = Driver(fn)
         g, rd = d.g, d.rd
         syncs = [n for n in g.where(lambda n: n.kind == 'stmt' and isinstance(n.ast, ast.Assign)
@@ -1638,7 +1795,7 @@ def sync(repo, out):
         out.ok(fn, syncs[0].ast, 'self._inarray[:] = inputs before the first perturbation')
 
     # ---- compute()
-    fn = repo.func(EC, 'ExecComp.compute')
+    fn = F(repo, 'ExecComp.compute')
     g = cfgm.build(fn)
     rd = cfgm.ReachingDefs(g)
     tests = g.where(lambda n: n.kind == 'test' and isinstance(n.ast, ast.If) and
@@ -1732,7 +1889,7 @@ def sync(repo, out):
 @rule('C14.coloring', floor=4)
 def coloring(repo, out):
     """The sparsity pass of _compute_coloring perturbs every input element, records column i for element i, and leaves the input vector as it found it."""
-    fn = repo.func(EC, 'ExecComp._compute_coloring')
+    fn = F(repo, 'ExecComp._compute_coloring')
     d = Driver(fn)
     g, rd = d.g, d.rd
     if len(d.adds) != 1:
@@ -1957,7 +2114,7 @@ def coloring(repo, out):
 @rule('C14.views', floor=11)
 def views(repo, out):
     """_setup_vectors pairs inputs with _inarray / _indict and outputs with _outarray / outdict, takes them in complex mode, and sets _relcopy exactly when the arrays are private."""
-    fn = repo.func(EC, 'ExecComp._setup_vectors')
+    fn = F(repo, 'ExecComp._setup_vectors')
     g = cfgm.build(fn)
     rd = cfgm.ReachingDefs(g)
     tests = [n for n in g.where(lambda n: n.kind == 'test' and isinstance(n.ast, ast.If))
@@ -2096,7 +2253,7 @@ def exec_sites(repo, out):
     mod = repo.module(EC)
     want = {'ExecComp._exec': 'self._viewdict', 'ExecComp.compute': 'self._iodict'}
     for qn, loc in want.items():
-        fn = repo.func(EC, qn)
+        fn = F(repo, qn)
         g = cfgm.build(fn)
         calls = [(n, c) for n in g.where(lambda n: n.kind == 'stmt') for c in n.calls()
                  if isinstance(c.func, ast.Name) and c.func.id == 'exec']
@@ -2148,7 +2305,7 @@ def exec_sites(repo, out):
     params = [a.arg for a in init.node.args.args[1:]]
     sites, wrong = [], []
     for qn in ('ExecComp._setup_vectors', 'ExecComp.compute'):
-        fn = repo.func(EC, qn)
+        fn = F(repo, qn)
         for c in astx.calls(fn.node):
             if astx.call_name(c) != '_IODict':
                 continue
@@ -2225,7 +2382,7 @@ def exec_sites(repo, out):
             out.unsure(fn, r_.ast, 'value handed to the expressions not recognised')
     # in-place stores
     for qn, dest in (('_ViewDict.__setitem__', None), ('_IODict.__setitem__', 'self._outputs')):
-        fn = repo.func(EC, qn)
+        fn = F(repo, qn)
         g = cfgm.build(fn)
         rd = cfgm.ReachingDefs(g)
         vparam = fn.node.args.args[2].arg
@@ -2847,4 +3004,70 @@ selftest(
     Twin('twin-resetup-repair', EC, _FIX_VEC_OLD, _FIX_VEC_NEW,
          also=[(EC, '        if not self._manual_decl_partials:\n            if self._relcopy:\n                self._inarray[:]',
                 '        if self._viewdict is not None:\n            if self._relcopy:\n                self._inarray[:]')]),
+)
+
+# ---- second robustness round: extracted statement-helper (expanded in place), conditional-expression stores
+_COL_INNER = '''                loc_i = icol - in_slices[in_name].start
+                for out_name in out_names:
+                    key = (out_name, in_name)
+                    if key in partials:
+                        # set the column in the Jacobian entry
+                        part = scratch[out_slices[out_name]]
+                        partials[key][:, loc_i] = part
+                        part[:] = 0.
+'''
+_COL_CALL = '''                self._scatter_colored_column(partials, scratch, in_name,
+                                             icol - in_slices[in_name].start)
+'''
+_COL_HELPER = '''    def _scatter_colored_column(self, partials, scratch, in_name, loc_i):
+        out_slices = self._out_slices
+
+        for out_name in self._var_rel_names['output']:
+            key = (out_name, in_name)
+            if key not in partials:
+                continue
+
+            part = scratch[out_slices[out_name]]
+            partials[key][:, loc_i] = part
+            part[:] = 0.
+
+'''
+_CP_DEF = '    def compute_partials(self, inputs, partials):\n'
+_ELEM_STORES_CONDEXPR = '''                        key = (u, inp)
+                        if key not in partials:
+                            continue
+
+                        subval, subval_is_scalar = vdict[u]
+                        deriv = imag(subval * inv_stepsize)
+                        partials[key][:, i] = deriv if subval_is_scalar else deriv.flat
+'''
+
+
+def _helper_variant(call=_COL_CALL, helper=_COL_HELPER):
+    return dict(old=_COL_INNER, new=call, also=[(EC, _CP_DEF, helper + _CP_DEF)])
+
+
+selftest(
+    'C14',
+    Twin('twin-colored-scatter-helper', EC, **_helper_variant()),
+    Twin('twin-colored-scatter-helper-kwargs', EC, **_helper_variant(
+        call='                self._scatter_colored_column(partials, scratch, loc_i=icol - in_slices[in_name].start,\n'
+             '                                             in_name=in_name)\n')),
+    Mutant('slot-helper-key-swapped', EC, expect='C14.slot',
+           **_helper_variant(helper=_COL_HELPER.replace('key = (out_name, in_name)', 'key = (in_name, out_name)'))),
+    Mutant('slot-helper-global-column', EC, expect='C14.slot',
+           **_helper_variant(call='                self._scatter_colored_column(partials, scratch, in_name, icol)\n')),
+    Mutant('slot-helper-scratch-leak', EC, expect='C14.slot',
+           **_helper_variant(helper=_COL_HELPER.replace('            part[:] = 0.\n', ''))),
+    Mutant('slot-helper-args-swapped', EC, expect='C14.slot',
+           **_helper_variant(call='                self._scatter_colored_column(partials, scratch, icol - in_slices[in_name].start,\n'
+                                  '                                             in_name)\n')),
+    Twin('twin-store-conditional-expression', EC, _ELEM_STORES, _ELEM_STORES_CONDEXPR),
+    Mutant('extract-condexpr-real-part', EC, _ELEM_STORES,
+           _ELEM_STORES_CONDEXPR.replace('deriv = imag(subval * inv_stepsize)', 'deriv = (subval * inv_stepsize).real'),
+           'C14.extract'),
+    Mutant('slot-condexpr-value-of-input-view', EC, _ELEM_STORES,
+           _ELEM_STORES_CONDEXPR.replace('= vdict[u]', '= vdict[inp]'), 'C14.slot'),
+    Mutant('slot-condexpr-row', EC, _ELEM_STORES, _ELEM_STORES_CONDEXPR.replace('partials[key][:, i]', 'partials[key][i, :]'),
+           'C14.slot'),
 )
